@@ -230,9 +230,11 @@ def check(ctx, rep):
 
     # ------------------------------------------------------------------ R19a
     dropper_set = set(droppers)
+    # the droppers themselves are not inlined here: a call to one is the privilege change (their insides are R19b's)
     w = Walker(prog, ctx.resolver, inline=lambda f, t, d: f.module.name.startswith("pygopherd.") and f.name != "log"
+               and f not in dropper_set
                and f.module.name not in ("pygopherd.logger", "pygopherd.fileext", "pygopherd.sighandlers"),
-               expr_value=_expr_value, max_depth=4)
+               expr_value=_expr_value, max_depth=4, max_paths=2000000)
     paths = w.run(initialize)
     rep.extra.setdefault("paths_enumerated", {})[initialize.qualname] = len(paths)
     prob_order, prob_call = set(), set()
